@@ -45,7 +45,16 @@ Proof. exact events_ok. Qed.
 Theorem C19_blocked_silent : forall me bl s m, suppressed bl m = true -> apply_msg me bl s m = (s, []).
 Proof. exact blocked_silent. Qed.
 
+(* Representation: in every reachable state the model's lists ARE Python containers - Room.users,
+   members, operators and the privileged set have no duplicates, and rooms / users / tickers have
+   unique keys (so the set / map reading of the questions above loses nothing). *)
+Theorem C19_containers_wf : forall me bl ms s0, wf_state s0 -> wf_state (fold me bl s0 ms).
+Proof. intros me bl ms s0. apply wf_state_fold. Qed.
+
 (* non-vacuity *)
+Example C19_wf_nonvacuous : forall me, wf_state (init_state me).
+Proof. exact wf_state_init. Qed.
+
 Example C19_fold_nonvacuous :
   let ms := [RoomListM [0] [1] [] [1]; JoinRoomM 1 [(1, (2%Z, (5, 0, 7, 1)%Z)); (2, (1%Z, (0, 0, 0, 0)%Z))] (Some 0) [2];
              OpGrantM 1 1; OpRevokeM 1 2; TickerAddM 1 1 3; LeaveRoomM 1; UserJoinedM 1 2 2%Z (1, 1, 1, 1)%Z] in
